@@ -767,6 +767,9 @@ class TypedTree(Tree):
             if value_map is True or isinstance(value_map, dict):
                 if value_map is True:
                     value_map = self.DEFAULT_VALUE_MAP.copy()
+                else:
+                    # Never write the collected kinds into the caller's dict
+                    value_map = dict(value_map)
 
                 if "kind" not in value_map:
                     counter = Counter()
